@@ -569,17 +569,30 @@ class GLin:
         self.terms = terms
 
 
+class DecidingArray(np.ndarray):
+    """object array of proxies whose comparisons with a number give a real boolean mask (each entry decided, i.e. the
+    exploration forks on its sign) -- what `rc < 0` must be for `upi[rc < 0] = rc[rc < 0]` to run"""
+
+    def __lt__(self, o):
+        return np.array([bool(v < o) for v in np.asarray(self, dtype=object).reshape(-1)], dtype=bool).reshape(self.shape)
+
+    def __gt__(self, o):
+        return np.array([bool(v > o) for v in np.asarray(self, dtype=object).reshape(-1)], dtype=bool).reshape(self.shape)
+
+
 class GMVar(GSub):
-    def __init__(self, n, lb, ub, vtype):
+    def __init__(self, n, lb, ub, vtype, rc=None):
         super().__init__(range(n))
         self.n, self.lb, self.ub, self.vtype = n, lb, ub, vtype
-        self.rc = np.zeros(n)
+        self.rc = np.zeros(n) if rc is None else rc
 
     def __getitem__(self, idx):
         return GSub(np.arange(self.n)[idx])
 
 
 class FakeGrbModel:
+    duals = False          # True: Pi / RC / X are fresh symbols (C14 reads them back)
+
     def __init__(self, c, status):
         self.c, self.Status, self.Runtime = c, status, 0.0
         self.mvars, self.mcons, self.qcons, self.obj, self.params, self.optimized = [], [], [], None, {}, 0
@@ -590,7 +603,11 @@ class FakeGrbModel:
         self.Params = P()
 
     def addMVar(self, n, lb=0.0, ub=math.inf, vtype="C"):
-        v = GMVar(int(n), lb, ub, vtype)
+        rc = None
+        if self.duals:
+            rc = np.empty(int(n), dtype=object).view(DecidingArray)
+            rc[:] = [self.c.fresh_real(f"rc{j}_") for j in range(int(n))]
+        v = GMVar(int(n), lb, ub, vtype, rc)
         self.mvars.append(v)
         return v
 
@@ -600,6 +617,10 @@ class FakeGrbModel:
         self.mcons.append((A, sense, b))
         r = Rec()
         r.pi = np.zeros(A.shape[0])
+        if self.duals:
+            r.pi = arr([self.c.fresh_real(f"gpi{'e' if sense == '=' else 'i'}{i}_") for i in range(A.shape[0])])
+        r.sense = sense
+        self.mrecs = getattr(self, "mrecs", []) + [r]
         return r
 
     def addConstr(self, con):
@@ -629,7 +650,8 @@ class FakeGrbModel:
         if self.Status == 4:
             from gurobipy import GurobiError
             raise GurobiError("Unable to retrieve attribute 'X'")
-        return [self.c.fresh_real(f"gx{i}_") for i in range(self.mvars[0].n)]
+        self.X = [self.c.fresh_real(f"gx{i}_") for i in range(self.mvars[0].n)]
+        return self.X
 
 
 class FakeGp:
@@ -641,6 +663,7 @@ class FakeGp:
 
     def Model(self):
         m = FakeGrbModel(self.c, self.status)
+        m.duals = getattr(self, "duals", False)
         self.made.append(m)
         return m
 
